@@ -138,7 +138,7 @@ def run(ctx):
         f_gen = [ex.submit(vlib.tlc_cases, ctx, "Replica", "Replica_gen.cfg", simulate="num=%d" % (per_run + 4), depth=100,
                            seed=ctx.seed * 100 + i, timeout=2400, heap="2g") for i in range(gen_runs)]
         f_mc = ex.submit(vlib.tlc_mc, ctx, "Replica", "Replica_mc_full.cfg" if ctx.thorough else "Replica_mc.cfg",
-                         workers=ctx.pick(2, 4), timeout=3000, heap="4g")
+                         workers=4, timeout=3000, heap="4g")
         f_eq = ex.submit(vlib.tlc, ctx, "ReplicaRewriteEq", "ReplicaRewriteEq.cfg", workers=1, coverage=False, timeout=2400, heap="4g") if ctx.thorough else None
         f_neg = [ex.submit(vlib.tlc_neg, ctx, "Replica", cfg, expect="Converge", workers=1, heap="2g", timeout=1800) for cfg in NEG.values()]
 
